@@ -7,18 +7,11 @@ Import ListNotations.
 Record Inv (s : state) : Prop := {
   i_core : CoreV s; i_sids : SidsOk s; i_focus : FocusOk s; i_m1 : M1 s; i_m2 : M2 s }.
 
-(* the complement of finding marked-only-ignored-by-add-update *)
-Definition marked_ok (s : state) (o : op) : Prop :=
-  match o with
-  | Add f => show_marked s = true -> ~ In (fid f) (store s) -> fmatches (filt s) f = true -> fmarked f = true
-  | Update f => show_marked s = true -> In (fid f) (store s) -> fmatches (filt s) f = true -> fmarked f = true
-  | _ => True
-  end.
 (* the complement of finding stale-order-key: an update never leaves an outdated cached key behind *)
 Definition fresh_ok (s : state) (o : op) : Prop :=
   match o with
   | Update f => In (fid f) (store s) -> forall o' k, cache_of s (fid f) o' = Some k -> k <> generate o' f ->
-                o' = okey s /\ In (fid f) (raw_ids s) /\ fmatches (filt s) f = true
+                o' = okey s /\ In (fid f) (raw_ids s) /\ shows s f = true
   | _ => True
   end.
 
